@@ -120,6 +120,9 @@ BinResult(m, op, l, r) == BinOp(IF op = "=" THEN "==" ELSE op, Deref(m, l), Dere
 
 (* the hook's name of the Primitive variant of a printed scalar ("" = not compared) *)
 KindName(v) == CASE v.t = "int" -> "Int" [] v.t = "bool" -> "Bool" [] v.t = "str" -> "Str" [] OTHER -> ""
+(* built-in methods the machine runs through MSLang!Builtin (those that do not call back into bytecode) *)
+BuiltinNames == {"len", "push", "remove", "reverse", "clear", "clone", "join", "index_of", "is_closure"}
+VoidBuiltins == {"push", "reverse", "clear"}
 RECURSIVE HasFn(_, _, _)
 HasFn(m, v, fuel) == LET d == Deref(m, v) IN
                      d.t = "fn" \/ (d.t = "list" /\ fuel > 0 /\ \E k \in 1..Len(m.lists[d.id]) : HasFn(m, m.lists[d.id][k], fuel - 1))
@@ -235,6 +238,27 @@ Exec1(F, m) ==
             LET names == {ar[k] : k \in 2..Len(ar)} IN
             IF \E x \in names : Resolve(m, a, x) = 0 THEN FailM(m, "machine")
             ELSE SetTop(m, Adv(PushV(a, MFn(a1, [has |-> Len(ar) > 1, m |-> [x \in names |-> Resolve(m, a, x)]]))))
+      [] op = "lookup" ->        \* a built-in method of a vector / string / function value; the receiver comes back through ld_self
+            IF n # 1 THEN FailM(m, "machine")
+            ELSE LET r == Deref(m, TopV(a)) IN
+                 IF r.t \in {"list", "str", "fn"} /\ a1 \in BuiltinNames THEN SetTop(m, Adv([a EXCEPT !.ops = <<[t |-> "bfn", m |-> a1]>>]))
+                 ELSE OomM(m, "lookup " \o a1 \o " on " \o r.t)
+      [] op = "ld_self" -> LET c == Local(m, a1) IN
+            IF c = 0 THEN FailM(m, "machine") ELSE SetTop(m, Adv([a EXCEPT !.ops = <<m.cells[c]>> \o @]))
+      [] op = "call" /\ Len(ar) = 0 /\ n >= 1 /\ Deref(m, a.ops[IF n >= 1 THEN n ELSE 1]).t = "bfn" ->
+            \* BuiltInFunction::run on [receiver, arguments...]; a frame `<native code>` is pushed and popped inside the step
+            IF n < 2 THEN FailM(m, "machine")
+            ELSE LET f == Deref(m, a.ops[n])
+                     recv == Deref(m, a.ops[1])
+                     rest == DerefAll(m, SubSeq(a.ops, 2, n - 1)) IN
+                 IF f.m = "is_closure" THEN
+                      (IF recv.t # "fn" THEN OomM(m, "is_closure on " \o recv.t)
+                       ELSE SetTop(m, Adv([a EXCEPT !.ops = <<VBool(recv.cb.has)>>])))
+                 ELSE IF recv.t = "fn" \/ (\E k \in 1..Len(rest) : rest[k].t = "fn") THEN OomM(m, "built-in " \o f.m \o " with a function")
+                 ELSE LET r == Builtin(recv, f.m, rest, HeapOf(m)) IN
+                      IF r.st.status = "type" THEN OomM(m, "built-in " \o f.m \o " on " \o recv.t)
+                      ELSE IF r.st.status # "ok" THEN FailM(m, r.st.status)
+                      ELSE [SetTop(m, Adv([a EXCEPT !.ops = IF f.m \in VoidBuiltins THEN <<>> ELSE <<r.v>>])) EXCEPT !.lists = r.st.lists]
       [] op = "call" ->
             IF Len(ar) >= 1 THEN
                  LET fi == FnIndex(F, a1) IN
